@@ -25,6 +25,7 @@ CONSTANTS
   Limits <- L1Limits
   Orig <- NNone
 VIEW nview
-INVARIANTS NodeTypeOK
+INVARIANTS NodeTypeOK CachesOK GhostAgrees ObsLawsHold
+PROPERTIES NodeStepLawsProp
 ACTION_CONSTRAINT EdgeDump
 CHECK_DEADLOCK FALSE
